@@ -3,7 +3,7 @@ CONSTANTS
   Clients = {1, 2, 3, 4}
   Ids = {1, 2}
   MaxData = 1
-  MaxHist = 8
+  MaxHist = 10
   RegWhileClaimed = "refuse"
 INVARIANTS C25_OnlyPartner C25_NoRelayBeforeBridge C25_InOrderNoLoss C25_SingleClaim C25_Symmetric C25_PartnerDisconnected C26_Released C26_NeverHangs D_RegistryConsistent
 VIEW View
